@@ -14,6 +14,8 @@ open XalanModel.C15
 
 inductive Kind where
   | root | elem | attr | text | comment | pi
+  /-- namespace node (only ever produced by the `namespace::*` step of a `use` expression) -/
+  | ns
 deriving Repr, DecidableEq, Inhabited
 
 /-- a node of a parsed document; `idx` = document-order number (root 0; an element's attributes
@@ -27,6 +29,8 @@ structure CNode where
   /-- XPath string-value -/
   value : String
   parent : Option Nat
+  /-- the element carries the namespace declaration `xmlns:zz="urn:zz"` -/
+  nsdecl : Bool := false
 deriving Repr, Inhabited
 
 /-- unnumbered parse tree -/
@@ -54,13 +58,14 @@ def strValue : Raw → String
 
 def mkAttrs (doc parent : Nat) : Nat → List (String × String) → List CNode
   | _, [] => []
-  | i, (n, v) :: rest => ⟨doc, i, .attr, n, v, some parent⟩ :: mkAttrs doc parent (i + 1) rest
+  | i, (n, v) :: rest => ⟨doc, i, .attr, n, v, some parent, false⟩ :: mkAttrs doc parent (i + 1) rest
 
 mutual
 /-- assign document-order numbers starting at `next`; returns the tree and the next free number -/
 def number (doc : Nat) : Raw → Nat → Option Nat → Tree CNode × Nat
   | r@(mk k n _ as ks), next, par =>
-    let self : CNode := ⟨doc, next, k, n, strValue r, par⟩
+    let self : CNode := { doc := doc, idx := next, kind := k, name := n, value := strValue r, parent := par,
+                          nsdecl := (match r with | mk .elem _ v _ _ => v == "ns" | _ => false) }
     let attrs := mkAttrs doc next (next + 1) as
     let (kids, next') := numberForest doc ks (next + 1 + as.length) (some next)
     (Tree.mk self attrs kids, next')
@@ -85,10 +90,11 @@ def Doc.ofRaw (doc : Nat) (r : Raw) : Doc :=
   { tree := t, nodes := t.docOrder.toArray }
 
 /-! ### token stream → `Raw`
-`R <nkids>` · `E <name> <nattrs> <nkids>` followed by `A <name> <value>`* · `T <value>` ·
+`R <nkids>` · `E <name> <nattrs> <nkids>` (`EN …` = it declares `xmlns:zz="urn:zz"`) followed by `A <name> <value>`* · `T <value>` ·
 `C <value>` · `P <target> <value>`; the value `-` is the empty string. -/
 
-def unval (s : String) : String := if s = "-" then "" else s
+/-- protocol token → value: `-` is the empty string, `~` stands for a space -/
+def unval (s : String) : String := if s = "-" then "" else s.replace "~" " "
 
 def parseAttrs : Nat → List String → Option (List (String × String) × List String)
   | 0, ts => some ([], ts)
@@ -105,6 +111,10 @@ def parseNode : Nat → List String → Option (Raw × List String)
     na.toNat?.bind fun na => nk.toNat?.bind fun nk =>
       (parseAttrs na ts).bind fun (as, ts1) =>
         (parseKids fuel nk ts1).map fun (ks, rest) => (Raw.mk .elem name "" as ks, rest)
+  | fuel + 1, "EN" :: name :: na :: nk :: ts =>     -- element declaring xmlns:zz="urn:zz" (marked in the unused value)
+    na.toNat?.bind fun na => nk.toNat?.bind fun nk =>
+      (parseAttrs na ts).bind fun (as, ts1) =>
+        (parseKids fuel nk ts1).map fun (ks, rest) => (Raw.mk .elem name "ns" as ks, rest)
   | _ + 1, "T" :: v :: ts => some (Raw.mk .text "" (unval v) [] [], ts)
   | _ + 1, "C" :: v :: ts => some (Raw.mk .comment "" (unval v) [] [], ts)
   | _ + 1, "P" :: tgt :: v :: ts => some (Raw.mk .pi tgt (unval v) [] [], ts)
@@ -291,6 +301,8 @@ def matchPattern (d : Doc) (ps : List PathPat) (n : CNode) : Bool :=
 
 inductive UStep where
   | self | parent | attr (a : String) | attrStar | child (n : String) | childStar | text | node | descOrSelf
+  /-- `namespace::*` (last step only) -/
+  | namespace
 deriving Repr, DecidableEq
 
 inductive SArg where
@@ -299,6 +311,9 @@ inductive SArg where
   | count (p : List UStep)
   | eq (p : List UStep) (v : String)
   | name
+  /-- `position()` / `last()` inside `use` -/
+  | position
+  | last
 deriving Repr
 
 inductive UseExpr where
@@ -314,6 +329,7 @@ def parseUStep (s : String) : UStep :=
   else if s = "*" then .childStar
   else if s = "text()" then .text
   else if s = "node()" then .node
+  else if s = "namespace::*" then .namespace
   else if s.startsWith "@" then .attr (s.drop 1).toString
   else .child s
 
@@ -322,6 +338,8 @@ def parseUPath (s : String) : List UStep :=
 
 def parseSArg (s : String) : SArg :=
   if s = "name()" then .name
+  else if s = "position()" then .position
+  else if s = "last()" then .last
   else if s.startsWith "'" ∧ s.endsWith "'" then .lit ((s.drop 1).dropEnd 1).toString
   else if s.startsWith "string(" ∧ s.endsWith ")" then .str (parseUPath ((s.drop 7).dropEnd 1).toString)
   else if s.startsWith "count(" ∧ s.endsWith ")" then .count (parseUPath ((s.drop 6).dropEnd 1).toString)
@@ -330,7 +348,7 @@ def parseSArg (s : String) : SArg :=
     | _ => .lit "?"
 
 def isScalar (s : String) : Bool :=
-  s = "name()" || s.startsWith "'" || s.startsWith "string(" || s.startsWith "count(" || (s.splitOn "='").length = 2
+  s = "name()" || s = "position()" || s = "last()" || s.startsWith "'" || s.startsWith "string(" || s.startsWith "count(" || (s.splitOn "='").length = 2
 
 def parseUse (s : String) : UseExpr :=
   if s.startsWith "concat(" ∧ s.endsWith ")" then
@@ -355,30 +373,42 @@ def evalUStep (d : Doc) (st : UStep) (n : CNode) : List CNode :=
   | .text => (d.childrenOf n).filter fun c => c.kind = .text
   | .node => d.childrenOf n
   | .descOrSelf => n :: d.descendantsOf n
+  | .namespace =>
+    -- the namespace nodes of an element: `xml` always, `zz` when declared on it or on an ancestor
+    if n.kind = .elem then
+      let mk (j : Nat) (pfx uri : String) : CNode :=
+        { doc := n.doc, idx := 1000000 + 2 * n.idx + j, kind := .ns, name := pfx, value := uri, parent := some n.idx }
+      mk 0 "xml" "http://www.w3.org/XML/1998/namespace" ::
+        (if n.nsdecl || (d.ancestorsOf n).any (·.nsdecl) then [mk 1 "zz" "urn:zz"] else [])
+    else []
 
 /-- a location path from `n`: a node-set in document order -/
 def evalUPath (d : Doc) (p : List UStep) (n : CNode) : List CNode :=
   p.foldl (fun cur st => dedupSorted (cur.flatMap (evalUStep d st))) [n]
 
-def evalSArg (d : Doc) (n : CNode) : SArg → String
+/-- `posZero`: the `use` expression is evaluated with an *empty* context node list (KeyTable.cpp as regenerated by
+`translate/c15_keytable.py`), so `position()` and `last()` are 0; XSLT 1.0 §12.2: the list holds just the node → 1 -/
+def evalSArg (posZero : Bool) (d : Doc) (n : CNode) : SArg → String
+  | .position => if posZero then "0" else "1"
+  | .last => if posZero then "0" else "1"
   | .lit s => s
   | .str p => match evalUPath d p n with | [] => "" | c :: _ => c.value
   | .count p => toString (evalUPath d p n).length
   | .eq p v => if (evalUPath d p n).any fun c => c.value = v then "true" else "false"
   | .name => match n.kind with | .elem | .attr | .pi => n.name | _ => ""
 
-def evalUse (d : Doc) (u : UseExpr) (n : CNode) : UseResult :=
+def evalUse (posZero : Bool) (d : Doc) (u : UseExpr) (n : CNode) : UseResult :=
   match u with
   | .path p => .nodeset ((evalUPath d p n).map (·.value))
-  | .one a => .str (evalSArg d n a)
-  | .concat as => .str (String.join (as.map (evalSArg d n)))
+  | .one a => .str (evalSArg posZero d n a)
+  | .concat as => .str (String.join (as.map (evalSArg posZero d n)))
 
 /-- a concrete `xsl:key`: expanded name + the two texts, closed over the documents so that it can serve
 as an abstract `KeyDecl` (a node knows its document, `CNode.doc`) -/
-def mkDecl (docs : Nat → Doc) (name : String) (pat : List PathPat) (use : UseExpr) :
+def mkDecl (posZero : Bool) (docs : Nat → Doc) (name : String) (pat : List PathPat) (use : UseExpr) :
     KeyDecl String CNode :=
   { name := name
     isMatch := fun n => matchPattern (docs n.doc) pat n
-    use := fun n => evalUse (docs n.doc) use n }
+    use := fun n => evalUse posZero (docs n.doc) use n }
 
 end XalanModel.C15.Concrete
